@@ -173,11 +173,78 @@ Theorem lower_optional_chain_dead :
 Proof. exact chain_dead. Qed.
 Print Assumptions lower_optional_chain_dead.
 
-(* NOT PROVED (modelled and tied by correspondence only): an optional call whose
-   callee is itself an optional chain ending in a property access (a?.b?.(),
-   a?.b.c?.(x): the this value travels through exprOut.thisArgFunc), chains
-   that start with a call under delete, and the composition of chain lowering
-   with the visitor theorem.  (a?.b)(args) is refuted (F4). *)
+(* THIS PASSING between an inner chain and the optional call made on it:
+   a?.b?.(x).c ...   and   a?.b.c?.(x) ...
+   The callee P = start?.l1...lk.lm is lowered first with storeThisArgForParent-
+   OptionalChain (producer_*: what lowerOptionalChain returns for it, including
+   exprOut.thisArgFunc); the outer chain eo' then has the lowered callee as its
+   start and receives that thisArg.  Conclusion: the fully lowered expression
+   behaves like the native two-level chain eo: the call is made with this = the
+   object the last member of P was read from, everything evaluated once. *)
+Theorem lower_optional_call_over_member_equiv :
+  forall (S : Type) (w : world S) (th : val) F eo eo' i n start lm args rest first again n3,
+    member_link lm ->
+    capture start n = (first, again, n3) ->
+    forall P, frag P -> flatten P = Some (start, [lm], false) ->
+    frag eo -> flatten eo = Some (P, LCall args :: rest, true) ->
+    frag eo' ->
+    flatten eo' = Some (EIf (EEqNull false first) EUndef (link_expr lm again), LCall args :: rest, true) ->
+    no_delete rest -> f_optchain F = true -> storeThis i = false ->
+    cap_ok S w start -> call_intact S w ->
+    (forall k, L3 n k -> ~ In k (tmps start)) ->
+    (forall k, L3 n k -> ~ In k (link_tmps lm)) ->
+    links_fresh (L3 n) (LCall args :: rest) ->
+    forall m s, observe (eval w th (fst (fst (lowerOptionalChain F eo' i (mkOut (Some again) false) n3))) m s)
+              = observe (eval w th eo m s).
+Proof. exact chain_call_over_member. Qed.
+Print Assumptions lower_optional_call_over_member_equiv.
+
+Theorem lower_optional_call_over_chain_equiv :
+  forall (S : Type) (w : world S) (th : val) F eo eo' i n start pre lm args rest first again n3,
+    member_link lm -> pre <> [] -> no_delete pre ->
+    capture start n = (first, again, n3) ->
+    forall P, frag P -> flatten P = Some (start, pre ++ [lm], false) ->
+    frag eo -> flatten eo = Some (P, LCall args :: rest, true) ->
+    frag eo' ->
+    flatten eo' = Some (EIf (EEqNull false first) EUndef (link_expr lm (EAssign (ETmp n3) (fold_links pre again))),
+                        LCall args :: rest, true) ->
+    no_delete rest -> f_optchain F = true -> storeThis i = false ->
+    cap_ok S w start -> call_intact S w ->
+    (forall k, L3 n k -> ~ In k (tmps start)) ->
+    links_fresh (L3 n) (pre ++ [lm]) ->
+    links_fresh (L3 n) (LCall args :: rest) ->
+    forall m s, observe (eval w th (fst (fst (lowerOptionalChain F eo' i (mkOut (Some (ETmp n3)) false) (n3 + 1)))) m s)
+              = observe (eval w th eo m s).
+Proof. exact chain_call_over_chain. Qed.
+Print Assumptions lower_optional_call_over_chain_equiv.
+
+(* the two hypotheses about eo' above are exactly what the model computes for the callee *)
+Theorem optional_callee_producer :
+  forall F P hcp n start pre lm first again n3,
+    frag P -> flatten P = Some (start, pre ++ [lm], false) -> member_link lm -> ends_with_access P = true ->
+    pre <> [] -> f_optchain F = true -> start <> ENull -> start <> EUndef ->
+    capture start n = (first, again, n3) ->
+    lowerOptionalChain F P (mkIn hcp true) out0 n
+    = (EIf (EEqNull false first) EUndef (link_expr lm (EAssign (ETmp n3) (fold_links pre again))),
+       mkOut (Some (ETmp n3)) false, n3 + 1).
+Proof. exact producer_general. Qed.
+Print Assumptions optional_callee_producer.
+
+Theorem optional_callee_producer_single :
+  forall F P hcp n start lm first again n3,
+    frag P -> flatten P = Some (start, [lm], false) -> member_link lm -> ends_with_access P = true ->
+    f_optchain F = true -> start <> ENull -> start <> EUndef ->
+    capture start n = (first, again, n3) ->
+    lowerOptionalChain F P (mkIn hcp true) out0 n
+    = (EIf (EEqNull false first) EUndef (link_expr lm again), mkOut (Some again) false, n3).
+Proof. exact producer_single. Qed.
+Print Assumptions optional_callee_producer_single.
+
+(* NOT PROVED (modelled and tied by correspondence only): optional calls whose
+   callee chain itself starts with a call (a.b?.().c?.()), call-start chains under
+   delete, and the composition of chain lowering with the visitor theorem (the
+   chain theorems take the already-lowered pieces as given).  (a?.b)(args) is
+   refuted (F4). *)
 
 (* The full statement of the property - for every world, feature set and
    temporary-free source expression the lowered tree behaves like the source -
